@@ -1,13 +1,56 @@
+/-
+  C09: ring.Buffer behaves as an unbounded FIFO byte queue.
+  Only property theorems and non-vacuity examples live here; helper lemmas are in
+  Gnet/Proofs/Ring.lean. Statements in this file are never weakened to make a proof pass.
+-/
 import Gnet.Model.Ring
+import Gnet.Proofs.Ring
 namespace Gnet.Props.C09
 open Gnet
 
-theorem ring_new_wf (n : Int) : (Ring.new n : Ring Nat).WF := by
-  unfold Ring.new
-  split
-  · constructor <;> simp
-  · constructor <;> simp [ceilPow2]
-    all_goals (split <;> simp <;> try omega)
-    all_goals exact Nat.pos_of_ne_zero (by simp)
+variable {α : Type} [Inhabited α]
+
+/-- `ring.New(n)` yields a well-formed, empty buffer for every `n` (also negative, also 0). -/
+theorem ring_new_wf (n : Int) : (Ring.new n : Ring α).WF := Proofs.Ring.new_wf n
+
+theorem ring_new_empty (n : Int) : (Ring.new n : Ring α).abs = [] := Proofs.Ring.new_abs n
+
+/-- Every operation, from every well-formed state (every reachable cursor position, wrapped,
+    exactly full, about to grow): does not panic, keeps the representation invariant, and its
+    effect on the abstract content and its observable result are a step of the FIFO
+    specification - nothing lost, duplicated or reordered, counts exact, `Peek`/`Bytes`
+    do not consume, short or failing readers/writers account for exactly what was moved. -/
+theorem ring_step_refines (gen : Nat → α) (rb : Ring α) (pos : Nat) (op : Fifo.Op α) (h : rb.WF) :
+    ∃ rb' pos' o, Ring.step gen (rb, pos) op = some ((rb', pos'), o) ∧ rb'.WF ∧
+      Fifo.Step gen (rb.abs, pos) op (rb'.abs, pos') o :=
+  Proofs.Ring.step_refines gen rb pos op h
+
+/-- All finite histories from any constructor argument. -/
+theorem ring_run_refines (gen : Nat → α) (n : Int) (ops : List (Fifo.Op α)) :
+    ∃ rb' pos' os, Ring.run gen (Ring.new n, 0) ops = some ((rb', pos'), os) ∧ rb'.WF ∧
+      Fifo.Run gen ([], 0) ops os (rb'.abs, pos') :=
+  Proofs.Ring.run_refines gen n ops
+
+/-- The counters always agree with the content. -/
+theorem ring_counters (rb : Ring α) (h : rb.WF) :
+    rb.buffered = rb.abs.length ∧ rb.buffered + rb.available = rb.cap ∧
+    (rb.isEmpty = true ↔ rb.buffered = 0) ∧
+    (rb.isFull = true ↔ (rb.buffered = rb.cap ∧ 0 < rb.cap)) :=
+  Proofs.Ring.counters rb h
+
+/-- `Peek` returns two segments whose concatenation is the prefix; the state is untouched. -/
+theorem ring_peek_prefix (rb : Ring α) (n : Int) (h : rb.WF) :
+    rb.peekSafe n = true ∧
+    (rb.peek n).1 ++ (rb.peek n).2 = (if n ≤ 0 then rb.abs else rb.abs.take n.toNat) :=
+  Proofs.Ring.peek_prefix rb n h
+
+-- non-vacuity: a wrapped state, a full state, an unallocated state satisfy the hypothesis
+example : (⟨[1, 2, 3, 4], 4, 3, 1, false⟩ : Ring Nat).WF ∧
+          (⟨[1, 2, 3, 4], 4, 3, 1, false⟩ : Ring Nat).abs = [4, 1] := by
+  refine ⟨⟨by simp, by simp, by simp, by simp, by simp⟩, by decide⟩
+example : (⟨[1, 2, 3, 4], 4, 2, 2, false⟩ : Ring Nat).WF ∧
+          (⟨[1, 2, 3, 4], 4, 2, 2, false⟩ : Ring Nat).abs = [3, 4, 1, 2] := by
+  refine ⟨⟨by simp, by simp, by simp, by simp, by simp⟩, by decide⟩
+example : (⟨[], 0, 0, 0, true⟩ : Ring Nat).WF := ⟨by simp, by simp, by simp, by simp, by simp⟩
 
 end Gnet.Props.C09
